@@ -1979,6 +1979,13 @@ class Recipe:
         self.stages[name] = slice(self.current_stage_start, len(self.steps))
         self.current_stage = 'all'
 
+    def _undeclared(self, obj: Container | Plate | PlateSlicer) -> bool:
+        """
+        True unless an object of this kind (a container, or a plate) has been declared under this name.
+        """
+        declared = self.results.get(obj.plate.name if isinstance(obj, PlateSlicer) else obj.name)
+        return not isinstance(declared, Container if isinstance(obj, Container) else Plate)
+
     def uses(self, *args: Container | Plate | Iterable[Container | Plate]) -> Recipe:
         """
         Declare *args (iterable of Containers and Plates) as being used in the recipe.
@@ -2018,10 +2025,10 @@ class Recipe:
             raise TypeError("Invalid destination type.")
         if not isinstance(source, (Container, Plate, PlateSlicer)):
             raise TypeError("Invalid source type.")
-        if (source.plate.name if isinstance(source, PlateSlicer) else source.name) not in self.results:
+        if self._undeclared(source):
             raise ValueError("Source not found in declared uses.")
         destination_name = destination.plate.name if isinstance(destination, PlateSlicer) else destination.name
-        if destination_name not in self.results:
+        if self._undeclared(destination):
             raise ValueError(f"Destination {destination_name} has not been previously declared for use.")
         if not isinstance(quantity, str):
             raise TypeError("Volume must be a str. ('5 mL')")
@@ -2127,7 +2134,7 @@ class Recipe:
         if ('concentration' in kwargs) + ('total_quantity' in kwargs) + ('quantity' in kwargs) != 2:
             raise ValueError("Must specify two values out of concentration, quantity, and total quantity.")
 
-        if isinstance(solvent, Container) and solvent.name not in self.results:
+        if isinstance(solvent, Container) and self._undeclared(solvent):
             raise ValueError(f"Solvent {solvent.name} has not been previously declared for use.")
 
         solute_names = ', '.join(substance.name for substance in solute) if isinstance(solute, Iterable) else solute.name
@@ -2173,7 +2180,7 @@ class Recipe:
         if name and not isinstance(name, str):
             raise TypeError("Name must be a str.")
 
-        if source.name not in self.results:
+        if self._undeclared(source):
             raise ValueError("Source not found in declared uses.")
 
         quantity_value, quantity_unit = Unit.parse_quantity(quantity)
@@ -2206,10 +2213,10 @@ class Recipe:
         if self.locked:
             raise RuntimeError("This recipe is locked.")
         if isinstance(destination, PlateSlicer):
-            if destination.plate.name not in self.results:
+            if self._undeclared(destination):
                 raise ValueError(f"Destination {destination.plate.name} has not been previously declared for use.")
         elif isinstance(destination, (Container, Plate)):
-            if destination.name not in self.results:
+            if self._undeclared(destination):
                 raise ValueError(f"Destination {destination.name} has not been previously declared for use.")
         else:
             raise TypeError(f"Invalid destination type: {type(destination)}")
@@ -2241,7 +2248,7 @@ class Recipe:
             raise TypeError("New name must be a str.")
         if not isinstance(destination, Container):
             raise TypeError("Destination must be a container.")
-        if destination.name not in self.results:
+        if self._undeclared(destination):
             raise ValueError(f"Destination {destination.name} has not been previously declared for use.")
         if new_name and new_name != destination.name and new_name in self.results:
             raise ValueError(f"An object with the name: \"{new_name}\" is already in use.")
@@ -2271,10 +2278,10 @@ class Recipe:
         if self.locked:
             raise RuntimeError("This recipe is locked.")
         if isinstance(destination, PlateSlicer):
-            if destination.plate.name not in self.results:
+            if self._undeclared(destination):
                 raise ValueError(f"Destination {destination.plate.name} has not been previously declared for use.")
         elif isinstance(destination, (Container, Plate)):
-            if destination.name not in self.results:
+            if self._undeclared(destination):
                 raise ValueError(f"Destination {destination.name} has not been previously declared for use.")
         else:
             raise TypeError(f"Invalid destination type: {type(destination)}")
